@@ -9,7 +9,7 @@ from ECAgent.Environments import DiscreteWorld, GridWorld, LineWorld, PositionCo
 KINDS = ["plain", "space", "discrete", "line", "grid"]
 
 
-def gen_world(rng, kinds=("space", "discrete", "line", "grid"), max_cells=48):
+def gen_world(rng, kinds=("space", "discrete", "line", "grid"), max_cells=48, subunit=0.0):
     kind = rng.choice(kinds)
     wrap = rng.random() < 0.45
     if kind == "plain":
@@ -18,6 +18,8 @@ def gen_world(rng, kinds=("space", "discrete", "line", "grid"), max_cells=48):
         den = 8
 
         def ext():
+            if rng.random() < subunit:
+                return rng.choice([2, 4, 6, 7])      # an extent strictly between 0 and 1 (only where the statement allows it)
             return 0 if rng.random() < 0.25 else rng.choice([8, 8 * rng.randint(1, 9), rng.randint(8, 80)])
         w, h, d = ext(), ext(), ext()
         if rng.random() < 0.8 and w == h:
